@@ -138,16 +138,22 @@ def main():
     if drv_ok and cases:
         try:
             impl = common.run_impl(pid, cases, seeds, getattr(mod, "ENV", None))
-            lines = []; index = []
-            for c in cases:
-                ls = mod.model_lines(c); index.append((len(lines), len(ls))); lines += ls
-            mout = common.run_model(lines) if lines else []
-            for c, (o, k) in zip(cases, index):
-                mo = mout[o:o + k]
-                if any(x and x[0] == "FUEL" for x in mo): stats["model_fuel"] += 1
-                if any(x and x[0].startswith("ERROR") for x in mo):
-                    problems.append({"case": c, "seed": None, "what": "model driver error: %s" % mo, "key": None}); continue
-                for s in seeds:
+            two_stage = getattr(mod, "TWO_STAGE", False)     # model queries depend on the implementation's output (checker mode)
+            cache = None
+            for s in seeds:
+                if two_stage or cache is None:
+                    lines = []; index = []
+                    for c in cases:
+                        ls = mod.model_lines(c, impl[s][c["_id"]]) if two_stage else mod.model_lines(c)
+                        index.append((len(lines), len(ls))); lines += ls
+                    mout = common.run_model(lines) if lines else []
+                    cache = (index, mout)
+                index, mout = cache
+                for c, (o, k) in zip(cases, index):
+                    mo = mout[o:o + k]
+                    if any(x and x[0] == "FUEL" for x in mo): stats["model_fuel"] += 1
+                    if any(x and x[0].startswith("ERROR") for x in mo):
+                        problems.append({"case": c, "seed": s, "what": "model driver error: %s" % mo, "key": None}); continue
                     r = impl[s][c["_id"]]; stats["impl_runs"] += 1
                     if "exc" in r and r["exc"] not in getattr(mod, "EXPECTED_EXC", ()): stats["impl_errors"] += 1
                     for pb in (mod.judge(c, r, mo) or []):
